@@ -571,6 +571,14 @@ fn load_toplevel_items_(
                 })
             };
 
+            // The variants of a public enum are public too.
+            if matches!(enum_info.visibility, Visibility::Public(_)) {
+                namespace
+                    .borrow_mut()
+                    .exported_syms
+                    .insert(variant_sym.name_sym.name.clone());
+            }
+
             // TODO: warn if we're clobbering a name from a
             // different enum (i.e. not just redefining the
             // current enum).
